@@ -135,3 +135,52 @@ Proof.
   destruct (IH c1 Hw1 Hn1 Hl1) as [A B]. destruct (rrun c1 ops) as [c2 ev2]. cbn [fst] in *.
   split; [exact A|]. rewrite <- Hc1, B, Hc1. exact Hsame.
 Qed.
+
+(* ---- reported versions never move backwards (for ANY received entries) ---- *)
+Lemma apply_entry_ver_mono now nid st e : n_ver st <= n_ver (fst (fst (apply_entry now nid st e))).
+Proof.
+  unfold apply_entry. destruct (e_ver e <=? n_ver st) eqn:E; [cbn; lia|]. apply N.leb_gt in E.
+  destruct (e_int e); [|cbn; lia]. destruct (String.eqb (e_key e) leftKey); [cbn; lia|].
+  destruct (String.eqb (e_key e) compactKey); [|cbn; lia]. destruct (parse_uint (e_val e)); cbn; lia.
+Qed.
+
+Lemma apply_entries_ver_mono now nid es : forall st, n_ver st <= n_ver (fst (apply_entries now nid st es)).
+Proof.
+  induction es as [|e es IH]; intros st; cbn [apply_entries]; [cbn; lia|].
+  pose proof (apply_entry_ver_mono now nid st e) as H1.
+  destruct (apply_entry now nid st e) as [[st1 ev1] stop]. cbn [fst] in H1. destruct stop; [exact H1|].
+  specialize (IH st1). destruct (apply_entries now nid st1 es). cbn [fst] in *. lia.
+Qed.
+
+Definition ver_of (c : cstate) (id : string) : N := match lookup id (c_nodes c) with Some s => n_ver s | None => 0 end.
+Definition known (c : cstate) (id : string) : Prop := lookup id (c_nodes c) <> None.
+
+Lemma apply_delta_entry_ver_mono nows c de id :
+  known c id -> known (fst (apply_delta_entry nows c de)) id /\ ver_of c id <= ver_of (fst (apply_delta_entry nows c de)) id.
+Proof.
+  unfold known, ver_of. intros Hk. rewrite apply_delta_entry_nodes.
+  destruct (String.eqb (de_id de) (c_local c)); [split; [exact Hk|lia]|]. rewrite lookup_insert.
+  destruct (String.eqb id (de_id de)) eqn:E; [|split; [exact Hk|lia]].
+  apply String.eqb_eq in E. subst id. split; [discriminate|].
+  destruct (lookup (de_id de) (c_nodes c)) as [s|]; [|contradiction]. apply apply_entries_ver_mono.
+Qed.
+
+Theorem version_never_backwards c o id :
+  known c id -> (forall t, o <> RExpire t) ->
+  known (fst (rstep c o)) id /\ ver_of c id <= ver_of (fst (rstep c o)) id.
+Proof.
+  intros Hk Hne. destruct o as [dg|nows dl|sus nows|t]; cbn [rstep].
+  - unfold known, ver_of in *. destruct (lookup id (c_nodes c)) as [s|] eqn:E; [|contradiction].
+    unfold apply_digest. rewrite (dig_fold_keeps dg c [] id s E). split; [discriminate|lia].
+  - clear Hne. unfold apply_delta. generalize (@nil event). revert c Hk. induction dl as [|de dl IH]; intros c Hk ev; cbn [fold_left]; [cbn [fst]; split; [exact Hk|lia]|].
+    assert (Hstep : delta_step nows (c, ev) de = (fst (apply_delta_entry nows c de), ev ++ snd (apply_delta_entry nows c de))).
+    { unfold delta_step. destruct (apply_delta_entry nows c de). reflexivity. }
+    rewrite Hstep. destruct (apply_delta_entry_ver_mono nows c de id Hk) as [K1 K2].
+    destruct (IH _ K1 (ev ++ snd (apply_delta_entry nows c de))) as [K3 K4]. split; [exact K3|lia].
+  - unfold known, ver_of in *. rewrite update_liveness_nodes.
+    rewrite (lookup_map_nodes (fun s => fst (liveness_node (c_local c) (fun id0 => existsb (String.eqb id0) sus) nows s))).
+    destruct (lookup id (c_nodes c)) as [s|]; [|contradiction]. cbn [option_map]. split; [discriminate|].
+    unfold liveness_node. destruct (String.eqb (n_id s) (c_local c) || n_left s); [cbn; lia|].
+    destruct (existsb _ sus); destruct (n_unreach s); cbn; lia.
+  - exfalso. apply (Hne t). reflexivity.
+Qed.
